@@ -9,7 +9,10 @@ BASE = ("trusted base: the exact Fraction kernel g3dv/kernel.py, the denoted-set
         "fractions; only generated admitted cases are judged (margin >= 1e-3, no hashed quantity within 5e-13 of a rounding "
         "boundary); the run is inconclusive (exit 2), not held, when its minimum-observation table is not met; besides "
         "freshly constructed operands, about one case in ten uses an operand with a history (built elsewhere, used, moved "
-        "into place, siblings moved away) and every 40th case is a prelude that uses and moves the library's factory objects")
+        "into place in one or two moves or by item assignment, siblings / the object returned by move moved on - the judged "
+        "object is then read back from its own attributes), constructor Points may have a past or be moved away afterwards, "
+        "judged results that share nothing with the operands are moved by the caller and the question asked again, and every "
+        "40th case is a prelude that uses and moves the library's factory objects")
 
 CHECKS = {
  "C01": ("reference-model monitor: exact rational oracle at the intersection() call boundary + invariant hooks on results",
